@@ -415,6 +415,11 @@ class Run(RunBase):
                 self._check_lookup_shape({"lanelet": i, "seg": 0, "t": 0.3, "shape": {"t": "rect", "l": 3.0, "w": 1.5},
                                           "ori": 0.3})
                 self._check_lookup_shape({"lanelet": i, "seg": 0, "t": 0.7, "shape": {"t": "circ", "r": 1.2}})
+        elif getattr(self, "ghosts", None):
+            # the network has been emptied: nothing may be found where its lanelets lay
+            self.probe("lookup-on-emptied-network")
+            self._check_lookup_pos([{"far": [987.0, -654.0]}])
+            self._check_lookup_shape({"far": self.ghosts[-1], "shape": {"t": "rect", "l": 3.0, "w": 1.5}})
         self._check_scenario_level([0, 1, 2, 3])
         self._check_histories()
 
@@ -460,6 +465,10 @@ class Run(RunBase):
                     self._check_lookup_pos([{"lanelet": i, "seg": 0, "t": 0.5} for i in ids] + [{"far": [987.0, -654.0]}])
                     self._check_lookup_shape({"lanelet": ids[0], "seg": 0, "t": 0.4,
                                               "shape": {"t": "rect", "l": 3.0, "w": 1.5}})
+                elif getattr(self, "ghosts", None):
+                    self.probe("lookup-on-emptied-network")
+                    self._check_lookup_pos([{"far": [987.0, -654.0]}])
+                    self._check_lookup_shape({"far": self.ghosts[-1], "shape": {"t": "rect", "l": 3.0, "w": 1.5}})
             elif kind == "standalone":
                 self._check_lanelet(self.standalone[ref], label="stand-alone lanelet")
             elif kind == "light":
@@ -1066,7 +1075,7 @@ class C11(Property):
     id = "C11"
     title = "Derived data never goes stale under mutation"
     tiers = {"quick": {"runs": 1600, "wall": 240, "chunk": 10}, "thorough": {"runs": 60000, "wall": 1700, "chunk": 25}}
-    expected_probes = ["restart-with-warm-cache", "history-truncation-hit", "fork-keeps-original", "fork-by-derived-network",
+    expected_probes = ["restart-with-warm-cache", "history-truncation-hit", "fork-keeps-original", "fork-by-derived-network", "lookup-on-emptied-network",
                        "continued-on-the-other-copy", "trajectory-replaced-by-shifted-copy",
                        "trajectory-object-transformed-and-reassigned", "cycle-edited-in-place-and-reassigned",
                        "merge-with-id-clash", "two-obstacles-share-one-state-list",
